@@ -12,7 +12,9 @@ EXTENDS Integers, Sequences, TLC, Json
 
 \* the buffered syncer also over sinks that misbehave: one that takes only part of what it is given without
 \* reporting an error (the buffered syncer must make up for it or report it), one that fails
-FaultySinkWriters == {"bws-over-short-sink", "bws-over-failing-sink"}
+\* and the testing writer over a test that has finished (its Logf panics): a panic or an error are answers, a short
+\* count without an error is not
+FaultySinkWriters == {"bws-over-short-sink", "bws-over-failing-sink", "testing-finished-t"}
 Writers == {"zapio", "zapio-disabled", "stdlog", "stdlog-at", "testing", "testing-markfailed", "bws", "bws-stopped"} \cup FaultySinkWriters
 \* payload classes: what the writers' trimming / splitting logic distinguishes
 Payloads == {"empty", "spaces", "text", "text-nl", "text-nlnl", "nl", "nlnl", "lead-space-text-trail", "multi-line",
